@@ -13,6 +13,7 @@ func panicScope(r *core.Run, entries ...rules.Entry) *rules.Scope {
 	if fl, ok := termProps[r.Prop]; ok {
 		tc := rules.DefaultTermConfig()
 		tc.MinLoops, tc.MinSites = fl[0], fl[1]
+		tc.Positions = r.Prop == "C07" || r.Prop == "C11" // "position inside the offending file" / "positions that lie within the input"
 		rules.Termination(r, sc, tc)
 	}
 	return sc
